@@ -91,6 +91,17 @@ public:
    /// @since  x.y.z, 01.10.2026
    bool hasArgument( const ArgumentKey& key) const;
 
+   /// Checks that the given key does not collide with the key of an argument
+   /// that is stored here: neither the same short or long key, nor a
+   /// contradicting short/long pair.<br>
+   /// Used to keep the keys of the arguments and of the sub-group arguments of
+   /// one handler, which are stored in two containers, distinct.
+   ///
+   /// @param[in]  key  The key of the argument that should be added elsewhere.
+   /// @throw  std::invalid_argument if the key collides with a stored key.
+   /// @since  x.y.z, 02.10.2026
+   void checkKeyUnused( const ArgumentKey& key) const noexcept( false);
+
    /// Specifies the line length to use when printing the usage.
    /// Used when this container is used to store te sub-group arguments.
    /// @param[in]  useLen  The new line length to use.<br>
